@@ -50,4 +50,9 @@ Sibling(u, c) == CASE c = "sibPath"  -> [u EXCEPT !.path = OtherPath(@)]        
                    [] c = "sibSlash" -> [u EXCEPT !.path = ToggleSlash(@)]                        \* only a trailing slash
                    [] c = "sibCase"  -> [u EXCEPT !.host = IF @ = "sp" THEN "SP" ELSE "sp"]       \* only letter case of the host
 OtherOrigin(u) == [u EXCEPT !.host = "sp2"]
+\* Two URLs that differ only in the letter case of the host, or in an empty path against "/", are the same URL under
+\* RFC 3986 normalisation: they name the same deployment, and whether a token minted under one spelling is honoured
+\* under the other is left open (an implementation may normalise or compare the strings as given)
+Norm(u) == [u EXCEPT !.host = IF @ = "SP" THEN "sp" ELSE @, !.path = IF @ = "" THEN "/" ELSE @]
+SameDeployment(u, v) == Norm(u) = Norm(v)
 =============================================================================
